@@ -261,6 +261,17 @@ func checkC11(w *SketchWorld, slot int) (fails []mc.Fail) {
 		}
 	}
 	batch, berr := q.GetValuesAtQuantiles(qs)
+	if db, derr := descendingBatch(q, qs); derr == nil && berr == nil {
+		for qi := range qs {
+			if math.Float64bits(db[qi]) != math.Float64bits(batch[qi]) {
+				fails = append(fails, mc.Fail{Clause: "C11.batch", Detail: fmt.Sprintf("%s, %s store, absorbed (value,weight) %v: GetValuesAtQuantiles answers %v at q=%v when asked in descending order and %v in ascending order", md.Spec, sl.Store, md.Ent, db[qi], qs[qi], batch[qi])})
+				return
+			}
+		}
+	} else if (derr == nil) != (berr == nil) {
+		fails = append(fails, mc.Fail{Clause: "C11.batch", Detail: fmt.Sprintf("%s, %s store: the batch query is refused in one order only (%v / %v)", md.Spec, sl.Store, berr, derr)})
+		return
+	}
 	for qi, p := range qs {
 		y, err := q.GetValueAtQuantile(p)
 		if err != nil {
